@@ -21,7 +21,8 @@ BrokenRule(t, m) ==
 
 ValViol(e) ==
     LET v == Verdict(e.t, e.m) IN
-    IF v = Yes /\ ~e.valid THEN {"C20/" \o e.t \o "/rejects-valid"}
+    IF e.panicked THEN {"C20/" \o e.t \o "/validator-panics/" \o (IF v = No THEN BrokenRule(e.t, e.m) ELSE "on-valid-message")}
+    ELSE IF v = Yes /\ ~e.valid THEN {"C20/" \o e.t \o "/rejects-valid"}
     ELSE IF v = No /\ e.valid THEN {"C20/" \o e.t \o "/accepts-invalid/" \o BrokenRule(e.t, e.m)}
     ELSE {}
 
